@@ -544,6 +544,7 @@ static uint64_t regionHash(const RegionData &D) {
     if (!v.r.isFullSet() && !v.r.isEmptySet()) { mix(v.r.getLower().getLimitedValue()); mix(v.r.getUpper().getLimitedValue()); }
   }
   for (auto &w : D.written) { mix((uint64_t)w.first); mix((uint64_t)w.second); }
+  for (auto &t : D.writtenLinked) { mix((uint64_t)std::get<0>(t)); mix((uint64_t)std::get<1>(t)); mix((uint64_t)std::get<2>(t)); }
   for (auto &w : D.nuls) { mix((uint64_t)w.first); mix((uint64_t)w.second); }
   D.hcache = h; D.hvalid = true;
   return h;
